@@ -427,10 +427,12 @@ class Check:
         ev["coverage"]["known_findings_reported"] = sorted(reported_known)
         ev["coverage"]["inconclusive"] = self.inconclusive
         ev["coverage"]["repo_tree"] = tree_hash()
-        os.makedirs(os.path.join(VERIF, "evidence"), exist_ok=True)
-        tmp = os.path.join(VERIF, "evidence", self.prop + ".json.tmp")
+        # mutation/seeded runs (tools/seed_eval.py) redirect their evidence so that evidence/ always describes /repo itself
+        evdir = os.environ.get("CMI_EVIDENCE_DIR", os.path.join(VERIF, "evidence"))
+        os.makedirs(evdir, exist_ok=True)
+        tmp = os.path.join(evdir, self.prop + ".json.tmp")
         json.dump(ev, open(tmp, "w"), indent=1, default=str)
-        os.replace(tmp, os.path.join(VERIF, "evidence", self.prop + ".json"))
+        os.replace(tmp, os.path.join(evdir, self.prop + ".json"))
         if rc == EXIT_OK and self._rundir and not os.environ.get("CMI_KEEP_RUN"):
             shutil.rmtree(self._rundir, ignore_errors=True)
         print("[%s] tier=%s seed=%d evaluations=%d distinct=%d violations=%d known=%d wall=%.1fs -> exit %d" % (
